@@ -342,6 +342,24 @@ Section Facts.
     simpl. rewrite String.eqb_refl. reflexivity.
   Qed.
 
+  (* every way of registering: the callee binds the ciphertext to the REGISTERED full URI (= what REGISTER carried) *)
+  Lemma roundtrip_call_invocation_registered : forall ra rb prefix name detail a k n n' s b,
+    let full := fst (register_uris prefix name) in
+    (detail = None \/ detail = Some full) ->
+    get_box ra true full = Some s -> get_box rb false full = Some s ->
+    originate (Some ra) full a k n = Sent b ->
+    Cryptobox.on_invocation_registered V P C nonce seal open dumps loads note (Some rb) prefix name detail b n'
+      = EndpointInvoked a k true /\
+    snd (register_uris prefix name) = full /\
+    full = match prefix with Some p => String.append p name | None => name end.
+  Proof.
+    intros ra rb prefix name detail a k n n' s b full Hd Ha Hb Ho.
+    split; [|split; reflexivity].
+    unfold Cryptobox.on_invocation_registered.
+    assert (E : invocation_proc detail (snd (register_uris prefix name)) = full) by (destruct Hd as [-> | ->]; reflexivity).
+    rewrite E. apply (roundtrip_call_invocation ra rb full a k n n' s b Ha Hb Ho).
+  Qed.
+
   Lemma roundtrip_yield_result : forall ra rb proc a k n s p progress,
     get_box ra true proc = Some s -> get_box rb false proc = Some s ->
     dumps (Some proc, Some a, k) = Some p ->
